@@ -41,33 +41,158 @@ package proxy
 //@   assigns nothing
 //@   sets lastLookup = result
 //@
+//@ // ---- C08: forwarding headers ---------------------------------------------------------------------------
+//@ // scheme of the client's connection when the client sent neither X-Forwarded-Proto nor Forwarded
+//@ spec fun connScheme(r *http.Request) string = hget(r.Header, "Upgrade") == "websocket" ? (r.TLS != nil ? "wss" : "ws") : (r.TLS != nil ? "https" : "http")
+//@
 //@ func scheme
-//@   trusted
+//@   props C08
+//@   requires r != nil
 //@   assigns nothing
+//@   ensures nopanic
+//@   ensures hget(r.Header, "X-Forwarded-Proto") == "" && hget(r.Header, "Forwarded") == "" ==> result == connScheme(r)
+//@   ensures hget(r.Header, "X-Forwarded-Proto") != "" && hget(r.Header, "Forwarded") != "" ==> result == connScheme(r)
+//@   ensures hget(r.Header, "X-Forwarded-Proto") != "" && hget(r.Header, "Forwarded") == "" ==> result == hget(r.Header, "X-Forwarded-Proto")
+//@
+//@ func localPort
+//@   props C08
+//@   assigns nothing
+//@   ensures nopanic
+//@   ensures r != nil && strings.Index(r.Host, ":") > 0 && strings.Index(r.Host, ":") < len(r.Host)-1 ==> result == r.Host[strings.Index(r.Host, ":")+1:]
+//@   ensures r != nil && !(strings.Index(r.Host, ":") > 0 && strings.Index(r.Host, ":") < len(r.Host)-1) ==> result == (r.TLS != nil ? "443" : "80")
+//@
+//@ // the header names fabio manages itself; the configurable client-ip and tls header names must not collide with them
+//@ spec fun managedKey(k string) bool = k == "X-Real-Ip" || k == "X-Forwarded-For" || k == "X-Forwarded-Proto" || k == "X-Forwarded-Port" || k == "X-Forwarded-Host" || k == "X-Forwarded-Prefix" || k == "Forwarded" || k == "Upgrade"
 //@
 //@ func addHeaders
-//@   trusted
-//@   assigns hdr1, mapsOf(map[string][]string), elems(string)
+//@   props C08
+//@   requires r != nil && r.Header != nil
+//@   requires cfg.ClientIPHeader == "" || !managedKey(canonKey(cfg.ClientIPHeader)) || cfg.ClientIPHeader == "X-Forwarded-For" || cfg.ClientIPHeader == "X-Real-Ip"
+//@   requires cfg.TLSHeader == "" || (!managedKey(canonKey(cfg.TLSHeader)) && canonKey(cfg.TLSHeader) != canonKey(cfg.ClientIPHeader))
+//@   requires len(digit16) == 16 && string(digit16) == "0123456789abcdef"
+//@   assigns mapsOf(map[string][]string), elems(string), hdr1, hdrHas
+//@   ensures nopanic
+//@   ensures (result == nil) == (splitErr(r.RemoteAddr) == nil)
+//@   // C07: the request's headers are changed only under the managed names and the two configured names
+//@   ensures forall k string :: !managedKey(k) && k != canonKey(cfg.ClientIPHeader) && k != canonKey(cfg.TLSHeader) ==> hdr1[r.Header][k] == old(hdr1[r.Header][k]) && hdrHas[r.Header][k] == old(hdrHas[r.Header][k])
+//@   ensures hget(r.Header, "Upgrade") == old(hget(r.Header, "Upgrade"))
+//@   ensures forall h http.Header :: h != r.Header ==> hdr1[h] == old(hdr1[h]) && hdrHas[h] == old(hdrHas[h])
+//@   // the configured client-ip header carries the real peer address whatever the client sent
+//@   ensures result == nil && cfg.ClientIPHeader != "" && cfg.ClientIPHeader != "X-Forwarded-For" && cfg.ClientIPHeader != "X-Real-Ip" ==> hget(r.Header, cfg.ClientIPHeader) == splitHost(r.RemoteAddr)
+//@   // X-Real-Ip: the client's value if it sent one, else the peer address
+//@   ensures result == nil ==> hget(r.Header, "X-Real-Ip") == (old(hget(r.Header, "X-Real-Ip")) != "" ? old(hget(r.Header, "X-Real-Ip")) : splitHost(r.RemoteAddr))
+//@   // the TLS header is present with the configured value exactly on TLS connections
+//@   ensures result == nil && cfg.TLSHeader != "" && r.TLS != nil ==> hget(r.Header, cfg.TLSHeader) == cfg.TLSHeaderValue && hhas(r.Header, cfg.TLSHeader)
+//@   ensures result == nil && cfg.TLSHeader != "" && r.TLS == nil ==> !hhas(r.Header, cfg.TLSHeader)
+//@   // X-Forwarded-Proto / -Port / -Host: kept when the client sent them, otherwise derived from the connection and the host asked for
+//@   ensures result == nil && old(hget(r.Header, "X-Forwarded-Proto")) != "" ==> hget(r.Header, "X-Forwarded-Proto") == old(hget(r.Header, "X-Forwarded-Proto"))
+//@   ensures result == nil && old(hget(r.Header, "X-Forwarded-Proto")) == "" && old(hget(r.Header, "Forwarded")) == "" ==> hget(r.Header, "X-Forwarded-Proto") == (r.TLS != nil ? "https" : "http")
+//@   ensures result == nil && old(hget(r.Header, "X-Forwarded-Host")) != "" ==> hget(r.Header, "X-Forwarded-Host") == old(hget(r.Header, "X-Forwarded-Host"))
+//@   ensures result == nil && old(hget(r.Header, "X-Forwarded-Host")) == "" ==> hget(r.Header, "X-Forwarded-Host") == r.Host
+//@   ensures result == nil && old(hget(r.Header, "X-Forwarded-Port")) != "" ==> hget(r.Header, "X-Forwarded-Port") == old(hget(r.Header, "X-Forwarded-Port"))
+//@   ensures result == nil ==> hget(r.Header, "Forwarded") != ""
+//@   at "proto := scheme(r)" assert (cfg.ClientIPHeader != "" && cfg.ClientIPHeader != "X-Forwarded-For" && cfg.ClientIPHeader != "X-Real-Ip" ==> hget(r.Header, cfg.ClientIPHeader) == remoteIP) && remoteIP == splitHost(r.RemoteAddr)
+//@   at "fwd := r.Header.Get(" assert cfg.ClientIPHeader != "" && cfg.ClientIPHeader != "X-Forwarded-For" && cfg.ClientIPHeader != "X-Real-Ip" ==> hget(r.Header, cfg.ClientIPHeader) == remoteIP
+//@   at "r.Header.Set(\"Forwarded\", fwd)" assert cfg.ClientIPHeader != "" && cfg.ClientIPHeader != "X-Forwarded-For" && cfg.ClientIPHeader != "X-Real-Ip" ==> hget(r.Header, cfg.ClientIPHeader) == remoteIP
 //@
 //@ func addResponseHeaders
-//@   trusted
-//@   assigns hdr1, mapsOf(map[string][]string), elems(string)
+//@   props C08
+//@   requires w != nil && r != nil
+//@   assigns mapsOf(map[string][]string), elems(string), hdr1, hdrHas
+//@   ensures nopanic
+//@   ensures result == nil
+//@   // Strict-Transport-Security is only ever added on TLS connections
+//@   ensures r.TLS == nil ==> hdr1 == old(hdr1) && hdrHas == old(hdrHas)
+//@   ensures forall h http.Header :: h != respHeader(w) ==> hdr1[h] == old(hdr1[h]) && hdrHas[h] == old(hdrHas[h])
+//@   ensures r.TLS != nil && cfg.STSHeader.MaxAge > 0 ==> hhas(respHeader(w), "Strict-Transport-Security")
 //@
 //@ func newWSHandler
 //@   trusted
 //@   assigns nothing
+//@   sets wsHost = host
 //@   ensures result != nil
 //@
+//@ // ---- C07 / C19: the reverse proxy for one request is built from exactly the computed target url and transport ----
 //@ func newHTTPProxy
-//@   trusted
+//@   props C07 C19
+//@   requires target != nil
 //@   assigns nothing
-//@   ensures result != nil
+//@   sets proxiedScheme = target.Scheme
+//@   sets proxiedHost = target.Host
+//@   sets proxiedPath = target.Path
+//@   sets proxiedQuery = target.RawQuery
+//@   sets proxiedRawPath = target.RawPath
+//@   sets proxiedTransport = tr
+//@   ensures nopanic
+//@   ensures result != nil && fresh(unbox(result, *httputil.ReverseProxy))
+//@   ensures unbox(result, *httputil.ReverseProxy).Transport == tr && unbox(result, *httputil.ReverseProxy).FlushInterval == flush
+//@
+//@ // the Director copies exactly scheme, host, path and query of the target url into the outgoing request
+//@ func newHTTPProxy$1
+//@   props C07
+//@   requires req != nil && req.URL != nil && target != nil && req.Header != nil
+//@   assigns req.URL.Scheme, req.URL.Host, req.URL.Path, req.URL.RawQuery, mapsOf(map[string][]string), elems(string), hdr1, hdrHas
+//@   ensures nopanic
+//@   ensures req.URL.Scheme == target.Scheme && req.URL.Host == target.Host && req.URL.Path == target.Path && req.URL.RawQuery == target.RawQuery
+//@
+//@ // path handed to the upstream: strip removed (result made absolute), then prepend added (result made absolute)
+//@ spec fun absP(p string) string = hasPrefix(p, "/") ? p : "/" + p
+//@ spec fun strippedP(t *route.Target, p string) string = (t.StripPath != "" && hasPrefix(p, t.StripPath)) ? absP(p[len(t.StripPath):]) : p
+//@ spec fun upstreamPath(t *route.Target, p string) string = t.PrependPath != "" ? absP(t.PrependPath + strippedP(t, p)) : strippedP(t, p)
+//@ spec fun upstreamQuery(tq string, rq string) string = (tq == "" || rq == "") ? tq + rq : tq + "&" + rq
 //@
 //@ func (*HTTPProxy).ServeHTTP
-//@   props C12
-//@   requires p != nil && w != nil && r != nil && p.Lookup != nil && !accessAdmitted && !authAccepted
+//@   props C12 C07 C08 C13
+//@   requires p != nil && w != nil && r != nil && r.URL != nil && r.Header != nil && p.Lookup != nil && !accessAdmitted && !authAccepted
+//@   // configuration assumptions: the configurable header names do not collide with the headers fabio manages
+//@   requires p.Config.ClientIPHeader == "" || !managedKey(canonKey(p.Config.ClientIPHeader)) || p.Config.ClientIPHeader == "X-Forwarded-For" || p.Config.ClientIPHeader == "X-Real-Ip"
+//@   requires p.Config.TLSHeader == "" || (!managedKey(canonKey(p.Config.TLSHeader)) && canonKey(p.Config.TLSHeader) != canonKey(p.Config.ClientIPHeader))
+//@   requires len(digit16) == 16 && string(digit16) == "0123456789abcdef"
+//@   requires respHeader(w) != r.Header
 //@   assigns *
+//@   // C12: routing, access control and authentication precede any upstream contact
 //@   ensures upstreamCalls > old(upstreamCalls) ==> lastLookup != nil && accessTarget == lastLookup && accessAdmitted && authAccepted
 //@   ensures lastLookup == nil ==> upstreamCalls == old(upstreamCalls)
 //@   ensures lastLookup != nil && !accessAdmitted ==> upstreamCalls == old(upstreamCalls) && lastStatus == 403
 //@   ensures lastLookup != nil && accessAdmitted && !authAccepted ==> upstreamCalls == old(upstreamCalls) && lastStatus == 401
+//@   // C07: no route: the configured status (404 when out of range), no upstream
+//@   ensures lastLookup == nil ==> lastStatus == ((p.Config.NoRouteStatus < 100 || p.Config.NoRouteStatus > 999) ? 404 : p.Config.NoRouteStatus)
+//@   // C13: a redirect route is answered with its status and location, no upstream
+//@   ensures lastLookup != nil && accessAdmitted && authAccepted && lastLookup.RedirectCode != 0 && lastLookup.RedirectURL != nil ==> upstreamCalls == old(upstreamCalls) && lastStatus == lastLookup.RedirectCode && lastRedirect == urlString(lastLookup.RedirectURL)
+//@   // C08: the upstream learns the host the client asked for, even when the route rewrites Host
+//@   ensures upstreamCalls > old(upstreamCalls) && old(hget(r.Header, "X-Forwarded-Host")) == "" && old(r.Host) != "" && p.Config.RequestID == "" ==> upXFH == old(r.Host)
+//@   // C07: Host is replaced only when the route asks for it
+//@   ensures upstreamCalls > old(upstreamCalls) && lastLookup.Host == "" ==> upHost == old(r.Host)
+//@   ensures upstreamCalls > old(upstreamCalls) && lastLookup.Host != "" && lastLookup.Host != "dst" ==> upHost == lastLookup.Host
+//@   // C07: for plain http the upstream url is the target's scheme and host, the path rewritten only by strip and prepend, the route's query in front
+//@   ensures upstreamCalls > old(upstreamCalls) && old(hget(r.Header, "Upgrade")) != "websocket" && old(hget(r.Header, "Upgrade")) != "Websocket" && p.Config.RequestID == "" ==> proxiedScheme == lastLookup.URL.Scheme && proxiedHost == lastLookup.URL.Host
+//@   ensures upstreamCalls > old(upstreamCalls) && old(hget(r.Header, "Upgrade")) != "websocket" && old(hget(r.Header, "Upgrade")) != "Websocket" && p.Config.RequestID == "" ==> proxiedPath == upstreamPath(lastLookup, old(r.URL.Path))
+//@   ensures upstreamCalls > old(upstreamCalls) && old(hget(r.Header, "Upgrade")) != "websocket" && old(hget(r.Header, "Upgrade")) != "Websocket" && p.Config.RequestID == "" ==> proxiedQuery == upstreamQuery(lastLookup.URL.RawQuery, old(r.URL.RawQuery))
+//@
+//@   // C07: the client's percent-encoding is kept: when strip or prepend rewrite the path, the raw path is rewritten alike
+//@   ensures [rawpath-kept] upstreamCalls > old(upstreamCalls) && old(hget(r.Header, "Upgrade")) != "websocket" && old(hget(r.Header, "Upgrade")) != "Websocket" && p.Config.RequestID == "" && old(r.URL.RawPath) != "" && ((lastLookup.StripPath != "" && hasPrefix(old(r.URL.Path), lastLookup.StripPath)) || lastLookup.PrependPath != "") ==> proxiedRawPath == upstreamPath(lastLookup, old(r.URL.RawPath))
+//@
+//@ // ---- C07: the response passes through the recording writer unchanged ------------------------------------
+//@ func (*responseWriter).WriteHeader
+//@   props C07
+//@   requires rw != nil && rw.w != nil
+//@   assigns rw.code, lastStatus, statusWrites
+//@   ensures nopanic
+//@   // every status the handler writes is forwarded unchanged
+//@   ensures lastStatus == statusCode && statusWrites == old(statusWrites) + 1 && rw.code == statusCode
+//@
+//@ func (*responseWriter).Write
+//@   props C07
+//@   requires rw != nil && rw.w != nil
+//@   assigns rw.size, respBody
+//@   ensures nopanic
+//@   // the bytes are handed to the client's writer unmodified, and the count it reports is returned
+//@   ensures respBody[rw.w] == old(respBody[rw.w]) + string(b[:result0]) && 0 <= result0 && result0 <= len(b)
+//@   ensures forall x http.ResponseWriter :: x != rw.w ==> respBody[x] == old(respBody[x])
+//@
+//@ func (*responseWriter).Header
+//@   props C07
+//@   requires rw != nil && rw.w != nil
+//@   assigns nothing
+//@   ensures nopanic
+//@   ensures result == respHeader(rw.w)
